@@ -69,7 +69,7 @@ func i64toa(buf *[]byte, val int64) int {
 	s := len(*buf)
 	ret := native.I64toa((*byte)(rt.IndexPtr((*rt.GoSlice)(unsafe.Pointer(buf)).Ptr, typeByte.Size, s)), val)
 	if ret < 0 {
-		*buf = append((*buf)[s:], '0')
+		*buf = append((*buf)[:s], '0')
 		return 1
 	}
 	*buf = (*buf)[:s+ret]
@@ -81,7 +81,7 @@ func f64toa(buf *[]byte, val float64) int {
 	s := len(*buf)
 	ret := native.F64toa((*byte)(rt.IndexPtr((*rt.GoSlice)(unsafe.Pointer(buf)).Ptr, typeByte.Size, s)), val)
 	if ret < 0 {
-		*buf = append((*buf)[s:], '0')
+		*buf = append((*buf)[:s], '0')
 		return 1
 	}
 	*buf = (*buf)[:s+ret]
